@@ -95,7 +95,54 @@ fn build(case: &Value) -> (Mesh<Normal3>, Surf, bool, i64) {
     }
 }
 
+/// Solids with a very large segment count (beyond 2^16): only a summary is recorded - index validity, the
+/// extent reached along the axis, the radial distance of the vertices, the length of the normals.
+fn exec_big(case: &Value) -> Value {
+    let mut e = case.clone();
+    let r = guard(|| build(case));
+    let o = e.as_object_mut().unwrap();
+    let Some((m, _, _, _)) = r else {
+        for k in ["nv", "nf", "idxok", "ymin", "ymax", "rlo", "rhi", "nbadn"] {
+            o.insert(k.into(), json!(0));
+        }
+        o.insert("panic".into(), json!(1));
+        return e;
+    };
+    let nv = m.verts.len();
+    let idxok = m.faces.iter().all(|t| t.0.iter().all(|&i| i < nv)) as u8;
+    let (mut ymin, mut ymax, mut rlo, mut rhi) = (f64::MAX, f64::MIN, f64::MAX, f64::MIN);
+    let mut nbadn = 0usize;
+    for v in &m.verts {
+        let (x, y, z) = (v.pos.x() as f64, v.pos.y() as f64, v.pos.z() as f64);
+        ymin = ymin.min(y);
+        ymax = ymax.max(y);
+        // distance from the axis (cylinder) or from the centre (sphere)
+        let d = if gs(case, "solid") == "sphere" { (x * x + y * y + z * z).sqrt() } else { (x * x + z * z).sqrt() };
+        rlo = rlo.min(d);
+        rhi = rhi.max(d);
+        let n = v.attrib;
+        let l = ((n.x() * n.x() + n.y() * n.y() + n.z() * n.z()) as f64).sqrt();
+        if (l - 1.0).abs() > 1e-3 {
+            nbadn += 1;
+        }
+    }
+    let q = |x: f64| if x.is_finite() && x.abs() < 1e6 { (x * 1024.0).round() as i64 } else { 1_000_000_000 };
+    o.insert("nv".into(), json!(nv));
+    o.insert("nf".into(), json!(m.faces.len()));
+    o.insert("idxok".into(), json!(idxok));
+    o.insert("ymin".into(), json!(q(ymin)));
+    o.insert("ymax".into(), json!(q(ymax)));
+    o.insert("rlo".into(), json!(q(rlo)));
+    o.insert("rhi".into(), json!(q(rhi)));
+    o.insert("nbadn".into(), json!(nbadn));
+    o.insert("panic".into(), json!(0));
+    e
+}
+
 pub fn exec(case: &Value) -> Value {
+    if case.get("big").is_some() {
+        return exec_big(case);
+    }
     let mut e = case.clone();
     let r = guard(|| build(case));
     let o = e.as_object_mut().unwrap();
@@ -212,6 +259,18 @@ pub fn exec(case: &Value) -> Value {
 }
 
 pub fn gen(args: &Args, out: &mut dyn Write) {
+    if args.rest.first().map(|s| s.as_str()) == Some("big") {
+        // segment counts around and beyond 2^16 (three sectors; unit radius)
+        let counts: &[u32] = if args.tier == "thorough" { &[65534, 65535, 65536, 65537, 70000, 131072] } else { &[65535, 70000] };
+        let mut k = 0;
+        for &n in counts {
+            for solid in ["cylinder", "sphere"] {
+                writeln!(out, "{}", json!({"k": format!("mb{k}"), "big": 1, "solid": solid, "secs": 3, "segs": n, "capped": 0, "r": 1.0})).unwrap();
+                k += 1;
+            }
+        }
+        return;
+    }
     let thorough = args.tier == "thorough";
     let (maxs, maxg) = if thorough { (16, 10) } else { (8, 5) };
     let mut k = 0;
@@ -238,7 +297,7 @@ pub fn gen(args: &Args, out: &mut dyn Write) {
             }
             // the same solids at very small and very large scales (every length scales with r)
             if (secs + 2 * segs) % 5 == 0 {
-                for r in [0.00048828125, 512.0] {
+                for r in [0.00048828125, 512.0, 0.0000152587890625, 0.00000095367431640625] {
                     if segs >= 2 {
                         emit(out, json!({"solid": "sphere", "secs": secs, "segs": segs, "r": r}));
                     }
